@@ -44,27 +44,30 @@ impl Printer {
         mut out: impl Write,
         print_error_message: bool,
     ) {
-        match write!(
+        let written = write!(
             out,
             "{}{}",
             file_info.path().to_string_lossy(),
             self.delimiter
-        ) {
-            Ok(_) => {}
-            Err(e) => {
-                if print_error_message {
-                    writeln!(
-                        &mut stderr(),
-                        "Error writing {:?} for {}",
-                        file_info.path().to_string_lossy(),
-                        e
-                    )
-                    .unwrap();
-                    matcher_io.set_exit_code(1);
-                }
+        )
+        .and_then(|()| out.flush());
+        if let Err(e) = written {
+            // A closed pipe is the reader's way of saying "enough".
+            if print_error_message || e.kind() != std::io::ErrorKind::BrokenPipe {
+                writeln!(
+                    &mut stderr(),
+                    "Error writing {:?} for {}",
+                    file_info.path().to_string_lossy(),
+                    e
+                )
+                .ok();
+            }
+            matcher_io.set_exit_code(1);
+            if !print_error_message {
+                // Standard output is gone: nothing more can be printed.
+                matcher_io.quit();
             }
         }
-        out.flush().unwrap();
     }
 }
 
